@@ -182,7 +182,7 @@ class PreemptAt(object):
 
 
 class Phases(object):
-    """Directed schedule with a bounded number of preemptions: phases = [[thread, quota], ...]; in each phase the
+    """Directed schedule with a bounded number of preemptions: phases = [[thread, quota(, from_time)], ...]; in each phase the
     named thread runs whenever it is enabled until it has been granted `quota` steps in that phase (or it ends);
     when it cannot run, the base strategy picks among the OTHER threads that are not named in a later phase."""
 
@@ -194,7 +194,11 @@ class Phases(object):
 
     def choose(self, s, enabled):
         while self.i < len(self.phases):
-            name, quota = self.phases[self.i]
+            name, quota = self.phases[self.i][:2]
+            if len(self.phases[self.i]) > 2 and s.now < self.phases[self.i][2]:
+                # [thread, quota, from_time]: the phase (and everything after it) starts at that virtual time;
+                # until then everybody runs as the base strategy decides
+                return self.base.choose(s, enabled)
             rec = s.by_name.get(name)
             if self.used >= quota or (rec is not None and rec.state == "finished"):
                 self.i += 1
